@@ -203,7 +203,8 @@ def run_case(inp):
         kw = dict(rotations=((0, 0), (0, 0), (10, 10))) if inp["rotations"] else {}
         try:
             with dask.config.set(scheduler="synchronous"):
-                ld = SubtomogramLoader(tomo, mole, order=1, output_shape=(n, n, n))
+                sc = float(inp.get("scale", 1.0))
+                ld = SubtomogramLoader(tomo, Molecules(mole.pos * sc), order=1, scale=sc, output_shape=(n, n, n))
                 lds = ld.construct_landscape(tmpl, max_shifts=ms, upsample=int(inp["upsample"]), alignment_model=cls, **kw)
                 declared = tuple(int(v) for v in lds.shape)
                 computed = tuple(int(v) for v in np.asarray(lds.compute()).shape)
@@ -414,6 +415,10 @@ def oracle(rng, thorough, deep=False, hints=None):
     for m, j in combos:
         cases.append(dict(kind="declared-shape", model=m, max_shifts=mss[j], n=7, upsample=[1, 2][(j + len(m)) % 2] if m != "FSC" else 1,
                           rotations=bool(j % 2), two_templates=bool(j == 3), seed=int(rng.integers(0, 10 ** 6))))
+    # search ranges that are a whole number of pixels only up to floating-point rounding (1.2 / 0.4 = 2.9999999999999996)
+    for i, (msn, sc) in enumerate([(1.2, 0.4), (0.6, 0.2), (2.1, 0.7), (0.29, 0.01)][: 4 if big else 2]):
+        cases.append(dict(kind="declared-shape", model=["ZNCC", "FSC", "NCC", "PCC"][i % 4] if i != 2 else "FSC", max_shifts=msn, scale=sc, n=7,
+                          upsample=1, rotations=bool(i % 2), two_templates=False, seed=int(rng.integers(0, 10 ** 6))))
     for i in range(6 if deep else (3 if thorough else 2)):
         cases.append(dict(kind="model-interleave", seed=int(rng.integers(0, 10 ** 6)), threads=[2, 3][i % 2],
                           model=["ZNCC", "PCC"][i % 2], method=["align", "score", "landscape"][i % 3],
